@@ -4,6 +4,8 @@ mod net;
 mod net_c03;
 mod net_c04;
 mod net_c12;
+mod net_srv;
+mod net_stall;
 mod sim;
 mod sim_ps;
 mod sim_rr;
@@ -26,6 +28,8 @@ fn main() {
         "c03" => net_c03::main(&args[1..]),
         "c04" => net_c04::main(&args[1..]),
         "c12" => net_c12::main(&args[1..]),
+        "srv" => net_srv::main(&args[1..]),
+        "stall" => net_stall::main(&args[1..]),
         "ps" => sim_ps::main(&args[1..]),
         "rr" => sim_rr::main(&args[1..]),
         "decoders" => decoders::main(&args[1..]),
